@@ -83,6 +83,7 @@ type ErrorGhost struct {
 }
 
 type Specs struct {
+	constGlobals map[string]bool
 	errorGhosts []ErrorGhost
 	contracts   map[string]*Contract
 	defines     map[string]*Define
@@ -98,7 +99,7 @@ type Specs struct {
 var clauseKeywords = []string{"assert", "requires", "ensures", "ghost-ensures", "assume-entry", "modifies", "loop", "trusted", "pure-effects", "inline-ok"}
 
 func loadSpecs(repo string) (*Specs, error) {
-	sp := &Specs{contracts: map[string]*Contract{}, defines: map[string]*Define{}, pures: map[string]*PureFunc{}, ghosts: map[string]*GhostVar{},
+	sp := &Specs{constGlobals: map[string]bool{}, contracts: map[string]*Contract{}, defines: map[string]*Define{}, pures: map[string]*PureFunc{}, ghosts: map[string]*GhostVar{},
 		guards: map[string]*Guard{}, externPure: map[string]bool{}, noInline: map[string]bool{}}
 	files, _ := filepath.Glob(filepath.Join(repo, "*", "zz_contracts_verif.go"))
 	more, _ := filepath.Glob(filepath.Join(repo, "*", "*", "zz_contracts_verif.go"))
@@ -242,6 +243,14 @@ func (sp *Specs) parseFile(repo, fn string) error {
 			// non-nil error (last result) sets the boolean ghost
 			g, pat := splitWord(rest)
 			sp.errorGhosts = append(sp.errorGhosts, ErrorGhost{Ghost: g, Pattern: strings.TrimSpace(pat)})
+			cur, lastClause = nil, nil
+		case "const-global":
+			// const-global Name: a package-level variable that is never reassigned after initialisation
+			for _, n := range strings.Split(rest, ",") {
+				if n = strings.TrimSpace(n); n != "" {
+					sp.constGlobals[pkg+"."+n] = true
+				}
+			}
 			cur, lastClause = nil, nil
 		case "noinline":
 			for _, n := range strings.Split(rest, ",") {
